@@ -427,6 +427,12 @@ func (ex *Executor) dispatchCall(st *State, fr *Frame, cc *ssa.CallCommon, fv Va
 // interface value): local cells get a fresh value, pointed-to structs get fresh fields.
 func (ex *Executor) havocPointees(st *State, args []Val) {
 	for _, a := range args {
+		if fv := ex.recover(a); fv.Fn != nil && fv.Fn.Fn != nil && len(fv.Fn.Fn.Blocks) > 0 {
+			// a closure handed to code outside the contracts may be run by it (sync.Once.Do, sort.Search, ...): everything
+			// the closure's body can write is unknown afterwards
+			st.havocNames(ex.writtenIn(fv.Fn.Fn))
+			continue
+		}
 		if a.T != nil {
 			if info, ok := ex.ifaceInfo[a.T.Key()]; ok {
 				a = info.payload
